@@ -7,6 +7,8 @@ func init() {
 		ID:    "C05",
 		Title: "Text outside Textwire syntax is emitted byte for byte; escapes, comments work",
 		Rules: []string{
+			"R-OUTPUT: EvaluateString and Template.String return the String() of the evaluated object unchanged",
+			"R-BODYENTRY / R-KEEP: the block parser is entered only on a token that is not a closer (a stray @end at top level does not end the template); parsed nodes are kept",
 			"R-PATHAPI (file content): EvaluateFile and the loader hand the file's bytes on unchanged",
 			"R-LOOP: @for / @each by cases: the output of a loop is the output of its passes, in order, and nothing else",
 			"R-FORMAT: the rendered page is never used as a printf format",
@@ -22,6 +24,9 @@ func init() {
 		NotDecided:  "TODO",
 		Assumptions: trustedBase,
 		Run: func(m *Model, s *Sink) {
+			m.RunOutputUnchanged(s, "R-OUTPUT")                          // the finished text is returned as it was printed
+			m.RunBodyEntry(s, "R-BODYENTRY")                             // the top level is not a block that a stray @end / @else closes: text after it is kept
+			m.RunKeepParsed(s, "R-KEEP")                                 // what was parsed is in the tree
 			m.RunEvalFile(s, "R-PATHAPI")                                // the text of a file reaches the lexer with the bytes the file has (CR, the final newline)
 			m.RunLoop(s, "R-LOOP")                                       // a loop emits the output of its passes and nothing else (no text left over from an earlier loop or render)
 			m.RunFormat(s, "R-FORMAT", m.reachableFns(m.Roots().Render)) // a percent sign in the text is not a verb
